@@ -156,7 +156,15 @@ impl Stream for RtStream {
                 r.to_string()
             }
             ["remove", idh] => {
-                self.table.remove(&Id::from_bytes(unhex(idh)).expect("id"));
+                let gone = Id::from_bytes(unhex(idh)).expect("id");
+                let before: Vec<Id> = self.all().iter().map(|n| *n.id()).filter(|i| *i != gone).collect();
+                self.table.remove(&gone);
+                // removing an entry leaves the others where they are: a bucket lists its entries in the order in which
+                // they were added or refreshed, and its head is the entry `add` considers for eviction
+                let after: Vec<Id> = self.all().iter().map(|n| *n.id()).collect();
+                if after != before {
+                    out.violation("C12", "remove-reorders", format!("removing {} changed the order of the remaining entries (the head of a bucket is no longer its least recently added or refreshed entry)", hex(gone.as_bytes())));
+                }
                 self.check_invariants(out);
                 "ok".into()
             }
